@@ -4,7 +4,7 @@
 # compiles, the pinned test packages pass and the demo fails.
 sd="$1"; re="$2"; dest="${3:-.}"; pkg="${4:-.}"
 export GOFLAGS=-mod=mod GOPROXY=off GOSUMDB=off GOTOOLCHAIN=local; unset GOWORK
-wt=$(/verif/tools/mk_scratch.sh confirm 2>/dev/null | tail -1)
+wt=$(/verif/tools/mk_scratch.sh ${CONFIRM_WT:-confirm} 2>/dev/null | tail -1)
 cd $wt || exit 2
 mkdir -p $dest; cp -r $sd/demo/* $dest/
 echo "== demo WITHOUT patch"; go test $SEED_TESTFLAGS -count=1 -run "$re" $pkg 2>&1 | grep -v '^\[20' | tail -4
